@@ -81,6 +81,23 @@ public:
     bool unsetEquivalentTo(const VariablePtr &equivalentVariable);
 
     /**
+     * @brief Private function to forget the identifiers of variables that are no longer equivalent.
+     *
+     * To be called after an equivalence has been removed. If the two given variables are
+     * no longer equivalent (be it directly or indirectly) then the mapping and connection
+     * identifiers recorded between any variable that is still equivalent to @p variable1
+     * and any variable that is still equivalent to @p variable2 are removed. (Identifiers
+     * can be set on indirectly equivalent variables, so they cannot all be found from the
+     * equivalence that has just been removed.)
+     *
+     * @sa removeEquivalence, removeAllEquivalences
+     *
+     * @param variable1 The variable on one side of the removed equivalence.
+     * @param variable2 The variable on the other side of the removed equivalence.
+     */
+    static void removeIdsOfSeparatedVariables(const VariablePtr &variable1, const VariablePtr &variable2);
+
+    /**
      * @brief Test if the given variable is directly equivalent to this one.
      *
      * The two variables are considered directly equivalent if this variable holds a valid reference to the
